@@ -2,7 +2,7 @@
 from lib import hexs
 
 MODULE = "DtailModel.Props.C16"
-GROUPS = ["C16"]
+GROUPS = ["C16", "C15"]
 ENV = {"VERIF_LOGLEVEL": "none"}   # the handlers' own error logging is not part of the observation
 BUDGET = {"quick": 5000, "thorough": 120000}
 LEVEL_TEXT = ("Lean theorems for every message and every colour table: C16_lossless (rendering minus escape codes = "
@@ -40,7 +40,7 @@ def message(rng):
     return m
 
 
-def gen(rng, budget, tier):
+def _gen_c16(rng, budget, tier):
     for _ in range(budget):
         if rng.random() < 0.5:
             yield "c16.colorfy " + hexs(message(rng).replace(b"\xac", b"~"))
@@ -51,3 +51,29 @@ def gen(rng, budget, tier):
                 m = message(rng).replace(b"\xac", b"~")
                 stream += m + (b"\xac" if rng.random() < 0.85 else b"")
             yield f"c16.write {kind} {rng.randrange(2)} {rng.choice([1, 2, 3, 7, 4096])} {hexs(stream)}"
+
+
+TABLE_VALUES = [b"web1", b"a", b"", b"Z\xc3\xbcrich", b"\xc5\x81\xc3\xb3d\xc5\xba\xe2\x80\x93\xc5\xbbyrard\xc3\xb3w", b"\xe5\xa4\xa7\xe9\x98\xaa\xe5\xba\x9c\xe5\xa4\xa7\xe9\x98\xaa\xe5\xb8\x82",
+                b"x" * 40, b"\xff\xfe", b"a|b", b"tab\tin it", b"\x1b[31mred"]
+
+
+def gen_table(rng, n):
+    """the result table (GroupSet.Result) with non-ASCII, wide, long, empty and hostile values as group keys and
+    last() values, under every ordering clause"""
+    from lib import hexs
+    for _ in range(n):
+        q = "select count(x),last(h),max(x) from T group by h" + rng.choice([" order by count(x)", " rorder by max(x)", " rorder by count(x)"])   # without an order key the row order is the map's
+        gs = []
+        ng = rng.choice([1, 2, 3, 6])
+        counts = rng.sample(range(1, 10 ** rng.choice([2, 3, 9])), ng)          # distinct order keys
+        keys = rng.sample(TABLE_VALUES, ng)
+        for k in range(ng):
+            key, val = keys[k], rng.choice(TABLE_VALUES)
+            c = counts[k]
+            gs.append(f"{hexs(key) if key else hexs(b'k%d' % k)}:{c}:{hexs(b'count(x)')}={c}|,{hexs(b'last(h)')}=|{hexs(val) if val else ''},{hexs(b'max(x)')}={c * 3}|")
+        yield f"c16.table {hexs(q.encode())} {';'.join(gs)}"
+
+
+def gen(rng, budget, tier):
+    yield from _gen_c16(rng, budget, tier)
+    yield from gen_table(rng, 60 if tier == "quick" else 3000)
